@@ -50,3 +50,16 @@ def execute_core(sc, workdir, prop, monitors, tags=None):
     return dict(confirm_hint=hint, bad=mine, evaluations=len(r["events"]), sample=sample, traces=1,
                 stats=dict(cycles=r["cycles"], events=len(r["events"]), **{"n_" + k: n for k, n in kinds.items()}),
                 info=v["info"], kinds=kinds, header=r["header"])
+
+
+def shrink_candidates(sc):
+    """Smaller variants of a whole-core scenario (fewer commands per port, then fewer ports), most aggressive first."""
+    if sc.get("kind") or not sc.get("ports"):
+        return
+    ports = sc["ports"]
+    for f in (0.25, 0.5):
+        if any(p.get("ncmd", 200) * f >= 20 for p in ports):
+            yield dict(sc, name=sc["name"], ports=[dict(p, ncmd=max(20, int(p.get("ncmd", 200) * f))) for p in ports])
+    if len(ports) > 1:
+        for drop in range(len(ports)):
+            yield dict(sc, name=sc["name"], ports=[p for i, p in enumerate(ports) if i != drop])
